@@ -521,3 +521,44 @@ func TestPlainSendSurvivesASelectThatGoesElsewhere(t *testing.T) {
 	})
 	mustBeClean(t, f, first)
 }
+
+// Arming a timer happens before its firing: what was written before time.AfterFunc is visible
+// to the callback, what was written before time.NewTimer to whoever receives the tick.
+func TestTimerArmingHappensBeforeFiring(t *testing.T) {
+	f, first := run(t, 1, nil, func(s *sched.Sim, task int) {
+		vrace.W(1)
+		done := vchan.Make[int]()
+		vtime.AfterFunc(time.Millisecond, func() {
+			vrace.R(1)
+			vrace.W(2)
+			done.Send(1)
+		})
+		done.Recv()
+		vrace.R(2)
+	})
+	mustBeClean(t, f, first)
+	f, first = run(t, 2, nil, func(s *sched.Sim, task int) {
+		if task == 0 {
+			vrace.W(3)
+			tm := vtime.NewTimer(time.Millisecond)
+			tm.C.Recv()
+			vrace.R(3)
+		}
+	})
+	mustBeClean(t, f, first)
+}
+
+// ... and a callback is not ordered after what the arming task did later.
+func TestTimerCallbackRacesWithLaterWrites(t *testing.T) {
+	f, first := run(t, 1, nil, func(s *sched.Sim, task int) {
+		done := vchan.Make[int](1)
+		vtime.AfterFunc(time.Millisecond, func() {
+			vrace.W(4)
+			done.Send(1)
+		})
+		vrace.W(4) // after arming, before the tick: unordered with the callback
+		vtime.Sleep(2 * time.Millisecond)
+		done.Recv()
+	})
+	mustBeFlagged(t, f, "I5", first)
+}
